@@ -53,14 +53,14 @@ var (
 	})
 	regResolveLogs = util.ToRegexRepl([]string{
 		// Resolve user variables
-		`/home/[^/]+/.cache`, `@{user_cache_dirs}`,
-		`/home/[^/]+/.config`, `@{user_config_dirs}`,
-		`/home/[^/]+/.local/share`, `@{user_share_dirs}`,
-		`/home/[^/]+/.local/state`, `@{user_state_dirs}`,
-		`/home/[^/]+/.local/bin`, `@{user_bin_dirs}`,
-		`/home/[^/]+/.local/lib`, `@{user_lib_dirs}`,
-		`/home/[^/]+/.ssh`, `@{HOME}/@{XDG_SSH_DIR}`,
-		`/home/[^/]+/.gnupg`, `@{HOME}/@{XDG_GPG_DIR}`,
+		`/home/[^/]+/\.cache`, `@{user_cache_dirs}`,
+		`/home/[^/]+/\.config`, `@{user_config_dirs}`,
+		`/home/[^/]+/\.local/share`, `@{user_share_dirs}`,
+		`/home/[^/]+/\.local/state`, `@{user_state_dirs}`,
+		`/home/[^/]+/\.local/bin`, `@{user_bin_dirs}`,
+		`/home/[^/]+/\.local/lib`, `@{user_lib_dirs}`,
+		`/home/[^/]+/\.ssh`, `@{HOME}/@{XDG_SSH_DIR}`,
+		`/home/[^/]+/\.gnupg`, `@{HOME}/@{XDG_GPG_DIR}`,
 		`/home/[^/]+/`, `@{HOME}/`,
 
 		// Resolve system variables
@@ -88,7 +88,7 @@ var (
 		`@{att}//`, `@{att}/`,
 
 		// Some system glob
-		`:not.active.yet`, `@{busname}`, // dbus unique bus name
+		`:not\.active\.yet`, `@{busname}`, // dbus unique bus name
 		`:1\.[0-9]*`, `@{busname}`, // dbus unique bus name
 		`@{bin}/(|ba|da)sh`, `@{sh_path}`, // collect all shell
 		`@{lib}/modules/[^/]+\/`, `@{lib}/modules/*/`, // strip kernel version numbers from kernel module accesses
